@@ -11,7 +11,8 @@ SPEC = {
         "the totality theorems are about the models of the reader (C14), containers (C10), fvar/avar normalisation "
         "(C13), text preprocessing (C17) ... each tied to the code by its own property's correspondence check",
         "for code without a model the check is a crash search only: structured mutation of 22 fixture fonts x all "
-        "public entry points, child processes with a 6 GiB address-space limit, per-entry wall-clock budget",
+        "public entry points, child processes with an 8 GiB address-space limit and a 120 s per-case watchdog, per-entry CPU-time budget, allocator-level "
+        "tracking of the largest single request; plus the synthetic inputs of eleven other harnesses (see rule)",
     ],
     "assumptions": [
         "a crash = panic (any thread-unwinding panic inside a public entry point), abort (allocation failure under the "
@@ -23,5 +24,10 @@ SPEC = {
             "swap, table removal), then every public entry point: FontData::read, table_provider(0,1,7), table access, "
             "cmap map_glyph/mappings_fn, glyf/CFF/CFF2 outlines, subset, prince::subset, whole_font, instance, Font::new, "
             "lookup_glyph_index, glyph_names, advances, lookup_glyph_image, axis_names, shape (Latin, Devanagari, Arabic). "
-            "distinct = distinct (fixture, mutation seed); histogram = pristine/mutated x fixture",
+            "1 case in 4 instead takes a structured synthetic input from the generator of another property's harness "
+            "(C04 whole-run GSUB programs incl. nested-lookup cycles, C05 GPOS/kern programs, C06 cmap sub-tables of every format, "
+            "C07 subset graphs, C09 whole_font table sets, C10 containers, C11 WOFF2 transformed glyf/hmtx, C12 gvar/HVAR/MVAR data, "
+            "C13 fvar/avar, C16 glyf outlines, C18 Type 2 charstrings) and runs that harness' driver of the crate on it, observing "
+            "only totality: any panic raised inside the crate, CPU time, largest allocation request. "
+            "distinct = distinct input lines; histogram = pristine/mutated x fixture, or component",
 }
